@@ -1752,7 +1752,44 @@ method or constructor of some type."""
         elif isinstance(node, (ast.Class, ast.Interface)):
             self._pass3_class_async_finish(node)
             self._pass3_class_async_sync(node)
+            self._pass3_class_property_accessors(node)
         return True
+
+    def _pass3_class_property_accessors(self, node):
+        # Accessor annotations are written as given; make sure both ends
+        # name something that exists and agree with each other, the
+        # typelib compiler refuses the rest.
+        methods = dict((method.name, method) for method in node.methods)
+        properties = dict((prop.name, prop) for prop in node.properties)
+        for prop in node.properties:
+            for kind, attr, back in (('setter', 'setter', 'set_property'),
+                                     ('getter', 'getter', 'get_property')):
+                name = getattr(prop, attr)
+                if name is None:
+                    continue
+                method = methods.get(name)
+                if method is None:
+                    message.warn_node(node,
+                                      "Property '%s:%s': %s '%s' is not a method of '%s'" %
+                                      (node.name, prop.name, kind, name, node.name))
+                    setattr(prop, attr, None)
+                    continue
+                other = properties.get(getattr(method, back))
+                if other is None or getattr(other, attr) != name:
+                    # Unless another property has the method to itself,
+                    # the method names this property back
+                    setattr(method, back, prop.name)
+        for method in node.methods:
+            if method.set_property is not None and method.set_property not in properties:
+                message.warn_node(method,
+                                  "%s: '(set-property %s)' does not name a property of '%s'" %
+                                  (method.symbol, method.set_property, node.name))
+                method.set_property = None
+            if method.get_property is not None and method.get_property not in properties:
+                message.warn_node(method,
+                                  "%s: '(get-property %s)' does not name a property of '%s'" %
+                                  (method.symbol, method.get_property, node.name))
+                method.get_property = None
 
     def _pass3_callable_property_accessors(self, node):
         # (set-property) and (get-property) only apply to methods
